@@ -317,33 +317,43 @@ def model_check(ctx, cases):
             p = (c.get("probes") or {}).get("d1")
             if p and p.get("env") and p["env"].get("OUT") is not None:
                 oc.append((c, base64.b64decode(p["env"]["OUT"])))
-    secs = [
-        ("MD", "list (nat * string * string) * string * bool", "doc_mismatches",
-         ["(%s, %s, %s)" % (coq_items(c["items"]), cstring(c["s"]), vlib.cbool(all(item_class(it) is None for it in c["items"]))) for c in dc]),
-        ("MR", "list string * string", "record_mismatches",
-         ["(%s, %s)" % (clist([cstring(x) for x in c["params"]]), cstring(c.get("recorded", ""))) for c in rc]),
-        ("MV", "list (string * string) * bool", "v1_mismatches",
-         ["(%s, %s)" % (clist(["(%s, %s)" % (cstring(it.get("name", "")), cstring(it["value"])) for it in c["items"]]),
-                        vlib.cbool(all(v1_pair(b(it.get("name", "")), b(it["value"])) for it in c["items"]))) for c in lc]),
-        ("MT", "string * string", "trim_mismatches",
-         ["(%s, %s)" % (cstring(out_bytes(c)), cstring(base64.b64decode(c["go_trim_b64"]))) for c in tc]),
-        ("MO", "string * string * string", "out_mismatches",
-         ["(%s, %s, %s)" % (cstring("OUT"), cstring(out_bytes(c)), cstring(seen)) for c, seen in oc]),
-    ]
-    res, err = pl.coq_sections(ctx, "c11_rest", HEADER, secs)
-    if res is None or any(res.get(k) is None for k in ("MD", "MR", "MV", "MT", "MO")):
-        ctx.fail("correspondence", "the model could not be evaluated on the doc/record/trim cases (coqc failed)", {"log": err})
-        return bad
-    for k in res["MD"]:
-        bad.append((dc[k], "doc_render / V0 of the model differ from the driver's rendering / the check's class"))
-    for k in res["MR"]:
-        bad.append((rc[k], "model `record` (join of stringified parameters) differs from Status.Params %r" % rc[k].get("recorded")))
-    for k in res["MV"]:
-        bad.append((lc[k], "V1 of the model differs from the check's class"))
-    for k in res["MT"]:
-        bad.append((tc[k], "model trim_space differs from strings.TrimSpace on %r" % out_bytes(tc[k])))
-    for k in res["MO"]:
-        bad.append((oc[k][0], "model output entry (NAME=TrimSpace(stdout), value part) differs from what the consumer saw"))
+    def secs_for(dcs, rcs, lcs, tcs, ocs):
+        return [
+            ("MD", "list (nat * string * string) * string * bool", "doc_mismatches",
+             ["(%s, %s, %s)" % (coq_items(c["items"]), cstring(c["s"]), vlib.cbool(all(item_class(it) is None for it in c["items"]))) for c in dcs]),
+            ("MR", "list string * string", "record_mismatches",
+             ["(%s, %s)" % (clist([cstring(x) for x in c["params"]]), cstring(c.get("recorded", ""))) for c in rcs]),
+            ("MV", "list (string * string) * bool", "v1_mismatches",
+             ["(%s, %s)" % (clist(["(%s, %s)" % (cstring(it.get("name", "")), cstring(it["value"])) for it in c["items"]]),
+                            vlib.cbool(all(v1_pair(b(it.get("name", "")), b(it["value"])) for it in c["items"]))) for c in lcs]),
+            ("MT", "string * string", "trim_mismatches",
+             ["(%s, %s)" % (cstring(out_bytes(c)), cstring(base64.b64decode(c["go_trim_b64"]))) for c in tcs]),
+            ("MO", "string * string * string", "out_mismatches",
+             ["(%s, %s, %s)" % (cstring("OUT"), cstring(out_bytes(c)), cstring(seen)) for c, seen in ocs]),
+        ]
+    # shards of the five lists (the thorough tier has tens of thousands of doc cases)
+    N = 2500
+    nsh = max(1, max((len(x) + N - 1) // N for x in (dc, rc, lc, tc, oc)))
+    parts = [(dc[i::nsh], rc[i::nsh], lc[i::nsh], tc[i::nsh], oc[i::nsh]) for i in range(nsh)]
+
+    def ev2(t):
+        idx, pt = t
+        return pl.coq_sections(ctx, "c11_rest_%d" % idx, HEADER, secs_for(*pt))
+    for pt, (res, err) in zip(parts, pl.run_parallel(ev2, list(enumerate(parts)))):
+        dcs, rcs, lcs, tcs, ocs = pt
+        if res is None or any(res.get(k) is None for k in ("MD", "MR", "MV", "MT", "MO")):
+            ctx.fail("correspondence", "the model could not be evaluated on the doc/record/trim cases (coqc failed)", {"log": err})
+            continue
+        for k in res["MD"]:
+            bad.append((dcs[k], "doc_render / V0 of the model differ from the driver's rendering / the check's class"))
+        for k in res["MR"]:
+            bad.append((rcs[k], "model `record` (join of stringified parameters) differs from Status.Params %r" % rcs[k].get("recorded")))
+        for k in res["MV"]:
+            bad.append((lcs[k], "V1 of the model differs from the check's class"))
+        for k in res["MT"]:
+            bad.append((tcs[k], "model trim_space differs from strings.TrimSpace on %r" % out_bytes(tcs[k])))
+        for k in res["MO"]:
+            bad.append((ocs[k][0], "model output entry (NAME=TrimSpace(stdout), value part) differs from what the consumer saw"))
     ctx.cov["model_evaluations"] = {"parse": len(pc), "doc_render+V0": len(dc), "record": len(rc), "V1": len(lc), "trim": len(tc), "output": len(oc)}
     return bad
 
